@@ -1082,7 +1082,13 @@ def run_bmp(case, ctx):
     net.default_handler = handler
     net.bind(sc, bm)
     hosts = {tuple(c): "bmp-" + "-".join(map(str, c)) for c in case["conns"]}
-    bc = bm.BMPController(hosts)
+    if [tuple(c) for c in case["conns"]] == [(0, 0)] and case["seed"] % 2:
+        # one frame only: the host may be given as a plain name, which
+        # stands for cabinet 0, frame 0
+        ctx.hit("bmp_host_given_as_name")
+        bc = bm.BMPController("bmp-0-0")
+    else:
+        bc = bm.BMPController(hosts)
     rng = random.Random(case["seed"])
     name = case["method"]
     build, family = BMP_METHODS[name]
